@@ -86,7 +86,10 @@ class AstBuilder:
                 self.dsp.add_function(**kw)
             else:
                 self.nodes[token] = n_id = get_id(dmap, out, 'c%d>{}')
-                self.dsp.add_function(None, sh.bypass, [out], [n_id])
+                try:
+                    self.dsp.add_function(None, sh.bypass, [out], [n_id])
+                except ValueError:  # A sign without operand (e.g., `-`).
+                    raise FormulaError()
         elif isinstance(token, Operand):
             self.missing_operands.add(token)
         self._deque.append(token)
